@@ -193,8 +193,19 @@ func VK04aMetaRows() {
 	vrt.Assert(err == nil && m.exists && m.size == size && m.largeRef == zipRef && m.largeOff == off, "parseMetaRow inverts the b: row format")
 	sz, err := parseMetaRowSizeOnly([]byte(row))
 	vrt.Assert(err == nil && sz == size, "parseMetaRowSizeOnly reads the size")
-	zm := zipMetaInfo{zipSize: uint32(vrt.Range(0, hi)), wholeRef: blob.VerifSmallRef(201), wholeSize: uint64(vrt.Range(0, hi)), dataSize: uint32(vrt.Range(0, hi))}
-	zrow := zm.rowValue(uint64(vrt.Range(0, hi)))
+	// z: rows: two of the four numbers symbolic per run (all four in the thorough tier)
+	zm := zipMetaInfo{zipSize: 1234, wholeRef: blob.VerifSmallRef(201), wholeSize: 56789, dataSize: 4321}
+	zoff := uint64(777)
+	switch vrt.Choice(2 + vrt.Tier()) {
+	case 0:
+		zm.zipSize, zm.dataSize = uint32(vrt.Range(0, hi)), uint32(vrt.Range(0, hi))
+	case 1:
+		zm.wholeSize, zoff = uint64(vrt.Range(0, hi)), uint64(vrt.Range(0, hi))
+	default:
+		zm.zipSize, zm.dataSize = uint32(vrt.Range(0, hi)), uint32(vrt.Range(0, hi))
+		zm.wholeSize, zoff = uint64(vrt.Range(0, hi)), uint64(vrt.Range(0, hi))
+	}
+	zrow := zm.rowValue(zoff)
 	z2, err := parseZipMetaRow([]byte(zrow))
 	vrt.Assert(err == nil && z2.zipSize == zm.zipSize && z2.wholeRef == zm.wholeRef && z2.wholeSize == zm.wholeSize && z2.dataSize == zm.dataSize, "parseZipMetaRow inverts the z: row format")
 	for _, bad := range []string{"", "12", "12 ", " 12 x 3", "12 sha224-zz 3", "12  " + zipRef.String() + " 3", "12 " + zipRef.String() + " 3 4"} {
